@@ -57,12 +57,28 @@ impl Out {
 
 // ------------------------------------------------------------------ semver_order
 
+/// the text of an identifier, which is what SemVer 2.0.0 §11 talks about
+fn sv_id_text(a: &PreReleaseIdentifier) -> String {
+    match a {
+        PreReleaseIdentifier::UInt(x) => x.to_string(),
+        PreReleaseIdentifier::Str(x) => x.clone(),
+    }
+}
+fn sv_numeric(t: &str) -> bool {
+    !t.is_empty() && t.bytes().all(|b| b.is_ascii_digit())
+}
+/// numeric texts of any size by value: without leading zeros, the longer one is greater, equal lengths compare digit by digit
+fn sv_num_cmp(a: &str, b: &str) -> Ordering {
+    let (a, b) = (a.trim_start_matches('0'), b.trim_start_matches('0'));
+    a.len().cmp(&b.len()).then(a.as_bytes().cmp(b.as_bytes()))
+}
 fn sv_id_prec(a: &PreReleaseIdentifier, b: &PreReleaseIdentifier) -> Ordering {
-    match (a, b) {
-        (PreReleaseIdentifier::UInt(x), PreReleaseIdentifier::UInt(y)) => x.cmp(y),
-        (PreReleaseIdentifier::Str(x), PreReleaseIdentifier::Str(y)) => x.as_bytes().cmp(y.as_bytes()), // ASCII / byte order
-        (PreReleaseIdentifier::UInt(_), PreReleaseIdentifier::Str(_)) => Ordering::Less,
-        (PreReleaseIdentifier::Str(_), PreReleaseIdentifier::UInt(_)) => Ordering::Greater,
+    let (x, y) = (sv_id_text(a), sv_id_text(b));
+    match (sv_numeric(&x), sv_numeric(&y)) {
+        (true, true) => sv_num_cmp(&x, &y),                  // "numeric by value"
+        (true, false) => Ordering::Less,                     // "numeric below alphanumeric"
+        (false, true) => Ordering::Greater,
+        (false, false) => x.as_bytes().cmp(y.as_bytes()),    // ASCII / byte order
     }
 }
 fn sv_ids_prec(l: &[PreReleaseIdentifier], r: &[PreReleaseIdentifier]) -> Ordering {
@@ -84,11 +100,26 @@ fn sv_precedence(a: &SemVer, b: &SemVer) -> Ordering {
     if a.patch != b.patch {
         return a.patch.cmp(&b.patch);
     }
-    match (&a.pre_release, &b.pre_release) {
+    // a version without pre-release identifiers is the release itself
+    let pa = a.pre_release.as_deref().filter(|p| !p.is_empty());
+    let pb = b.pre_release.as_deref().filter(|p| !p.is_empty());
+    match (pa, pb) {
         (None, None) => Ordering::Equal,
         (None, Some(_)) => Ordering::Greater,
         (Some(_), None) => Ordering::Less,
         (Some(x), Some(y)) => sv_ids_prec(x, y),
+    }
+}
+/// values outside the representation the parser yields for numbers that fit in u64: they get their own obligations
+fn sv_class(a: &SemVer, b: &SemVer) -> &'static str {
+    let empty = |v: &SemVer| matches!(&v.pre_release, Some(p) if p.is_empty());
+    let num_text = |v: &SemVer| v.pre_release.as_ref().is_some_and(|p| p.iter().any(|i| matches!(i, PreReleaseIdentifier::Str(t) if sv_numeric(t))));
+    if empty(a) || empty(b) {
+        "class=empty-identifier-list "
+    } else if num_text(a) || num_text(b) {
+        "class=numeric-identifier-held-as-text "
+    } else {
+        ""
     }
 }
 fn semver_family(out: &mut Out) {
@@ -103,6 +134,15 @@ fn semver_family(out: &mut Out) {
         PreReleaseIdentifier::Str("beta".into()),
         PreReleaseIdentifier::Str("1a".into()),
         PreReleaseIdentifier::Str("-".into()),
+        // numeric identifiers the parser keeps as text because they do not fit in u64, and the largest that does
+        PreReleaseIdentifier::UInt(u64::MAX),
+        PreReleaseIdentifier::Str("18446744073709551616".into()),
+        PreReleaseIdentifier::Str("99999999999999999999".into()),
+        PreReleaseIdentifier::Str("100000000000000000000".into()),
+        PreReleaseIdentifier::Str("0a".into()),
+        // what the public constructors allow: a small number held as text
+        PreReleaseIdentifier::Str("1".into()),
+        PreReleaseIdentifier::Str("007".into()),
     ];
     let mut pres: Vec<Option<Vec<PreReleaseIdentifier>>> = vec![None, Some(vec![])];
     for a in &ids {
@@ -130,13 +170,13 @@ fn semver_family(out: &mut Out) {
             let want = sv_precedence(a, b);
             let got = a.cmp(b);
             if got != want {
-                out.cex("semver_order", format!("cmp({a}, {b}) = {got:?}, SemVer 2.0.0 precedence = {want:?}"));
+                out.cex("semver_order", format!("{}cmp({a:?}, {b:?}) = {got:?}, SemVer 2.0.0 precedence = {want:?}", sv_class(a, b)));
             }
             if a.partial_cmp(b) != Some(want) {
-                out.cex("semver_order", format!("partial_cmp({a}, {b}) = {:?}, expected Some({want:?})", a.partial_cmp(b)));
+                out.cex("semver_order", format!("{}partial_cmp({a:?}, {b:?}) = {:?}, expected Some({want:?})", sv_class(a, b), a.partial_cmp(b)));
             }
             if (a == b) != (want == Ordering::Equal) {
-                out.cex("semver_order", format!("({a} == {b}) = {}, but precedence = {want:?}", a == b));
+                out.cex("semver_order", format!("{}({a:?} == {b:?}) = {}, but precedence = {want:?}", sv_class(a, b), a == b));
             }
         }
     }
@@ -155,7 +195,8 @@ fn semver_family(out: &mut Out) {
                         ids.push(PreReleaseIdentifier::UInt(*out.pick(&nums)));
                     } else {
                         let mut t = out.text(&alpha, 4);
-                        if t.is_empty() || t.chars().all(|c| c.is_ascii_digit()) { t.push('a'); }
+                        if t.is_empty() { t.push('a'); }
+                        if out.below(6) == 0 { t = format!("{}{}", out.pick(&nums), out.below(1000)); }   // a numeric text, often above u64::MAX
                         ids.push(PreReleaseIdentifier::Str(t));
                     }
                 }
@@ -172,7 +213,7 @@ fn semver_family(out: &mut Out) {
             let (a, b, c) = (out.pick(&pool).clone(), out.pick(&pool).clone(), out.pick(&pool).clone());
             let want = sv_precedence(&a, &b);
             if a.cmp(&b) != want || a.partial_cmp(&b) != Some(want) || (a == b) != (want == Ordering::Equal) {
-                out.cex("semver_order", format!("cmp({a}, {b}) = {:?}, == is {}, SemVer 2.0.0 precedence = {want:?}", a.cmp(&b), a == b));
+                out.cex("semver_order", format!("{}cmp({a}, {b}) = {:?}, == is {}, SemVer 2.0.0 precedence = {want:?}", sv_class(&a, &b), a.cmp(&b), a == b));
             }
             if a.cmp(&b) != b.cmp(&a).reverse() {
                 out.cex("semver_order", format!("not antisymmetric: cmp({a}, {b}) = {:?}, cmp({b}, {a}) = {:?}", a.cmp(&b), b.cmp(&a)));
@@ -193,12 +234,15 @@ fn label_rank(l: &PreReleaseLabel) -> i32 {
         PreReleaseLabel::Rc => 2,
     }
 }
+/// "numeric parts by value and below alphabetic parts", on the part's text (a number too large for u32 is kept as text and is still numeric)
 fn seg_prec(a: &LocalSegment, b: &LocalSegment) -> Ordering {
-    match (a, b) {
-        (LocalSegment::UInt(x), LocalSegment::UInt(y)) => x.cmp(y),
-        (LocalSegment::Str(x), LocalSegment::Str(y)) => x.to_lowercase().cmp(&y.to_lowercase()),
-        (LocalSegment::UInt(_), LocalSegment::Str(_)) => Ordering::Less,
-        (LocalSegment::Str(_), LocalSegment::UInt(_)) => Ordering::Greater,
+    let text = |s: &LocalSegment| match s { LocalSegment::UInt(x) => x.to_string(), LocalSegment::Str(x) => x.to_lowercase() };
+    let (x, y) = (text(a), text(b));
+    match (sv_numeric(&x), sv_numeric(&y)) {
+        (true, true) => sv_num_cmp(&x, &y),
+        (true, false) => Ordering::Less,
+        (false, true) => Ordering::Greater,
+        (false, false) => x.cmp(&y),
     }
 }
 fn pep_key_prec(a: &PEP440, b: &PEP440) -> Ordering {
@@ -255,6 +299,12 @@ fn pep440_family(out: &mut Out) {
         Some(vec![LocalSegment::Str("A".into())]),
         Some(vec![LocalSegment::UInt(1), LocalSegment::Str("b".into())]),
         Some(vec![LocalSegment::UInt(10)]),
+        // numeric parts the parser keeps as text because they do not fit in u32
+        Some(vec![LocalSegment::Str("9999999999".into())]),
+        Some(vec![LocalSegment::Str("10000000000".into())]),
+        Some(vec![LocalSegment::UInt(u32::MAX)]),
+        Some(vec![LocalSegment::Str("0a".into())]),
+        Some(vec![LocalSegment::UInt(1), LocalSegment::Str("4294967296".into())]),
     ];
     let mut vs = Vec::new();
     for e in [0u32, 1] {
@@ -430,12 +480,18 @@ fn sanitize_family(out: &mut Out) {
                             out.cex("sanitize", format!("Sanitizer::str(sep={sep:?}, lowercase={lowercase}, keep_zeros={keep_zeros}, max_length={max:?}).sanitize({input:?}) = {got:?}: {why}"));
                             continue;
                         }
-                        if max.is_none() {
+                        {
                             let t = if lowercase { input.to_ascii_lowercase() } else { input.clone() };
                             let r = rj(&t, d);
                             let want = if keep_zeros { r } else { zs(&r, d) };
-                            if got != want {
+                            if max.is_none() && got != want {
                                 out.cex("sanitize", format!("Sanitizer::str(sep={sep:?}, lowercase={lowercase}, keep_zeros={keep_zeros}, max_length=None).sanitize({input:?}) = {got:?}, runs joined = {want:?}"));
+                            }
+                            // "returns the maximal runs … joined by single separators … and at most max_length characters": when the joined runs fit, they are the answer
+                            if let Some(m) = max {
+                                if want.chars().count() <= m && got != want {
+                                    out.cex("sanitize", format!("class=max-length-cut-before-cleanup Sanitizer::str(sep={sep:?}, lowercase={lowercase}, keep_zeros={keep_zeros}, max_length={m}).sanitize({input:?}) = {got:?}, but the runs joined, {want:?}, fit in {m} characters"));
+                                }
                             }
                         }
                         let again = san.sanitize(&got);
